@@ -228,8 +228,12 @@ def one_case(ctx, fi, fam, tree, valid=True):
         r = p.type.is_subtype(tbefore)
     except Exception as ex:  # noqa
         r = f"error {type(ex).__name__}"
-    if r is not True and r is not None:
-        ctx.fail(f"primitive() of `{text}` has type {p.type}, not a subtype of the unexpanded type {before}", dict(feats, check="type-preservation"), replay)
+    concrete_before = not any(True for _ in tbefore.variables())
+    if r is None and concrete_before:
+        # undetermined because the expansion's type still has variables: it must hold for every instantiation within their bounds
+        r = True if subtype_at_all_corners(fam, p.type, tbefore) else False
+    if r is not True and (r is not None or concrete_before):
+        ctx.fail(f"primitive() of `{text}` has type {p.type}, not (known to be) a subtype of the unexpanded type {before}", dict(feats, check="type-preservation"), replay)
     # idempotence
     try:
         p2 = p.primitive()
@@ -288,6 +292,47 @@ def show_l(t):
     if t[0] == "src":
         return f"s{t[1]}"
     return str(t[1])
+
+
+def subtype_at_all_corners(fam, t, concrete):
+    """t (may contain bounded variables) <= concrete for every corner instantiation of its variables"""
+    import itertools
+    import langgen as G
+    from refsub import ref_sub
+    from transforge import type as T
+    spec = G.LangSpec(list(G.BUILTIN_DECLS) + [("A", [], None), ("B", [], 5)])
+    ops = [T.Unit, T.Top, T.Bottom, T.Product, T.Function, fam.T["A"], fam.T["B"]]
+
+    def idx(o):
+        return next(i for i, x in enumerate(ops) if x is o)
+    vs = []
+
+    def collect(x):
+        x = x.follow()
+        if isinstance(x, T.TypeVariable):
+            if not any(x is v for v in vs):
+                vs.append(x)
+        else:
+            for p_ in x.params:
+                collect(p_)
+    collect(t)
+
+    def inst(x, rho):
+        x = x.follow()
+        if isinstance(x, T.TypeVariable):
+            return rho[id(x)]
+        return (idx(x.operator), tuple(inst(p_, rho) for p_ in x.params))
+    choices = []
+    for v in vs:
+        lo = (idx(v.lower), ()) if v.lower else (G.BOT, ())
+        hi = (idx(v.upper), ()) if v.upper else (G.TOP, ())
+        choices.append([lo, hi])
+    want = inst(concrete, {})
+    for combo in itertools.islice(itertools.product(*choices), 64):
+        rho = {id(v): c for v, c in zip(vs, combo)}
+        if not ref_sub(spec, inst(t, rho), want):
+            return False
+    return True
 
 
 def show(t):
